@@ -5,7 +5,7 @@ from typing import Any
 
 from ..absint import AObj
 from ..card import D, domain_wf, kind
-from ..codec import NAME_CLASSES, ctc_model, run_writer
+from ..codec import NAME_CLASSES, stress_trees, ctc_model, run_writer
 from ..core import AnalysisError, Ctx, loc
 from ..exports import ClaferDoc, ExportError, configurations, model_names, model_valid
 from ..logic import BINARY_LOGICAL
@@ -115,6 +115,8 @@ def check(pm: ProgramModel, ctx: Ctx) -> None:
             ctx.ok("C11-OPS", f"operator:{op}", "", f"constraints with {op} at three positions are translated")
         else:
             ctx.obligations.append(first_bad)
+    for nm, tree in stress_trees(mb):
+        validate(ctx, pm, "C11-OPS", f"shape:{nm}", ctc_model(mb, [("c", tree)]), f"constraint shape {nm}")
     validate(ctx, pm, "C11-OPS", "operator:NOT", ctc_model(mb, [("c", n(o("NOT"), n("A"))), ("d", n(o("NOT"), n(o("NOT"), n("B"))))]),
              "negation constraints")
     # one identifier per entity -----------------------------------------------------------------------------
